@@ -16,6 +16,7 @@ def run(ctx, out):
     U64 = 2 ** 64 - 1
     cases = []
     n_limit = 0
+    n_multi = 0
     pre_amounts = [0, 1, 99, 100, 2500, 10 ** 6, 10 ** 11, 10 ** 12 - 1] + [rng.randrange(10 ** 12) for _ in range(6)]
     n_random = 40 if thorough else 6
     for pre in pre_amounts:
@@ -41,8 +42,27 @@ def run(ctx, out):
                 other = (receipt % 9999) + 1
                 resv = [P.status(receipt_no=other, result_code=0), P.intermediate(), P.status(receipt_no=receipt, result_code=0),
                         P.status(result_code=0), P.completion()]
+            commit_reply = [P.status(**st), P.print_line("receipt"), P.completion()]
+            if rng.random() < 0.4:
+                # several status packets within the partial reversal: earlier ones report other figures (with / without a receipt
+                # number), the LAST one is what the summary reproduces — whether or not it carries a receipt number
+                def other():
+                    o = dict(result_code=0, amount=rng.choice([0, 1, 1234, 10 ** 12 - 1]), trace_number=rng.choice([1, 8, 123456]),
+                             date=rng.choice([102, 1130]), time=rng.choice([2, 101010]), terminal_id=rng.choice([3, 12345678]))
+                    if rng.random() < 0.6:
+                        o["receipt_no"] = rng.choice([receipt, (receipt % 9999) + 1])
+                    for kk in list(o):
+                        if rng.random() < 0.2 and kk != "result_code":
+                            del o[kk]
+                    return o
+                last = dict(st)
+                if rng.random() < 0.3:
+                    last["receipt_no"] = receipt
+                commit_reply = [P.status(**other()), P.intermediate()] + ([P.status(**other())] if rng.random() < 0.4 else []) + \
+                               [P.status(**last), P.print_line("receipt"), P.completion()]
+                n_multi += 1
             queues = {"0622": [resv],
-                      "0623": [[P.status(**st), P.print_line("receipt"), P.completion()]]}
+                      "0623": [commit_reply]}
             calls = ["new", f"begin:{tok(token)}", f"commit:{tok(token)}:{final}"]
             if rng.random() < 0.3:
                 # the card is read first and reports its own pre-authorisation limit (tag 1F0B), below / at / above the configured
@@ -65,7 +85,9 @@ def run(ctx, out):
                 calls = ["new", f"begin:{tok('A')}", f"begin:{tok('B')}", f"commit:{tok('A')}:{final}", f"commit:{tok('A')}:{final}", f"commit:{tok('B')}:{max(0, final - 1)}"]
                 cases.append((cfg, calls, q, None, None))
     ops, impl = run_histories(ctx, out, cases, "begin + commit")
+    out.count("commit with several status packets", n_multi)
+    out.count("card read first (own limit)", n_limit)
     out.rule = ("pre-authorisation amounts {0, 1, 99, 100, 2500, 10^6, 10^11, 10^12-1, random} x final amounts {0, 1, equal, off-by-one either side, 2^32, 2^62, 2^63-1, 2^63, 2^63+1, u64::MAX-1294, u64::MAX-1, u64::MAX, random}; "
-                "currencies SEK/GBP/EUR, CP437 tokens of length 0..60, receipt numbers 1..9999 (also reported twice with different values: the latest counts), status fields over their ranges / absent; in 30 % of the histories the card is read first and reports its own pre-authorisation limit (tag 1F0B) below / at / above the configured amount. Also: two reservations, the first commit refused with an abort naming the OTHER reservation's receipt, then repeated. The reservation and partial-reversal requests on the wire must equal, byte for byte, "
+                "currencies SEK/GBP/EUR, CP437 tokens of length 0..60, receipt numbers 1..9999 (also reported twice with different values: the latest counts), status fields over their ranges / absent; in 40 % of the commits the terminal sends two or three status packets with different figures, with and without receipt number (the last one counts); in 30 % of the histories the card is read first and reports its own pre-authorisation limit (tag 1F0B) below / at / above the configured amount. Also: two reservations, the first commit refused with an abort naming the OTHER reservation's receipt, then repeated. The reservation and partial-reversal requests on the wire must equal, byte for byte, "
                 "the packets assembled from the specification (amount = max(0, pre - final), currency, receipt, AC + token) and the summary must reproduce the reported fields. implementation = model = specification")
     out.samples = [ops[3][:400], {"op": ops[-1][:200], "impl": impl[-1][:300]}]
